@@ -87,6 +87,123 @@ def ggswEncryptCompressed (bits b n size kxe rank dnum dsize : Nat) (pt : Poly) 
   | none => none
   | some ds => compressedCells bits b n size kxe rank sk expand ds (expand seedXa) es
 
+
+/-! ### the temporary plaintext as the Rust handles it
+
+`gglwe_compressed_encrypt_sk` / `gglwe_encrypt_sk` keep ONE temporary `tmp_pt` (taken from scratch: arbitrary
+content on entry) across all cells: every iteration does `tmp_pt.data.zero()` (all limbs),
+`vec_znx_add_scalar_assign` on the gadget limb, `vec_znx_normalize_assign` (which may carry into the limb
+above when the scalar has coefficients ≥ 2^(base2k−1)).  The `…T` routines below thread that temporary, so a
+change of the zeroing pattern (e.g. clearing only the gadget limb) is a disagreement with this model. -/
+
+/-- `tmp_pt.data.zero()` -/
+def zeroLike (c : Col) : Col := c.map (fun l => l.map (fun _ => (0 : Int)))
+
+/-- one iteration on the temporary: zero everything, add the scalar on limb `(dsize-1)+row·dsize`, normalise in place -/
+def gadgetPtFrom (prev : Col) (b n dsize row : Nat) (s : Poly) : Option Col :=
+  let limb := (dsize - 1) + row * dsize
+  let z := zeroLike prev
+  if limb < z.length then
+    some (normalizeAssignCol b (z.set limb (List.zipWith (fun x y => w64 (x + y)) (z.getD limb []) s)) n)
+  else none
+
+/-- cells of `gglwe_compressed_encrypt_sk` in loop order: (storage index, row, scalar, plaintext column) -/
+def gglweCellSpec (rankIn dnum : Nat) (pt : List Poly) : List (Nat × Nat × Poly × Nat) :=
+  (List.range rankIn).flatMap (fun col => (List.range dnum).map (fun row => (row * rankIn + col, row, pt.getD col [], 0)))
+
+/-- the temporary threaded through the cells: every cell's plaintext is what the temporary holds after its iteration -/
+def gadgetSeq (b n dsize : Nat) : Col → List (Nat × Nat × Poly × Nat) → Option (List (Nat × Option (Col × Nat)))
+  | _, [] => some []
+  | tmp, (idx, row, s, c) :: rest =>
+    match gadgetPtFrom tmp b n dsize row s with
+    | none => none
+    | some p =>
+      match gadgetSeq b n dsize p rest with
+      | none => none
+      | some ds => some ((idx, some (p, c)) :: ds)
+
+/-- **`gglwe_compressed_encrypt_sk`** with its temporary (`tmp0` = content of the scratch temporary on entry) -/
+def gglweEncryptCompressedT (tmp0 : Col) (bits b n size kxe rankOut rankIn dnum dsize : Nat) (pt : List Poly) (sk : List Poly)
+    (expand : List Nat → List Nat) (seedXa : List Nat) (es : List Poly) : Option (List (Nat × CellC)) :=
+  match gadgetSeq b n dsize tmp0 (gglweCellSpec rankIn dnum pt) with
+  | none => none
+  | some ds => compressedCells bits b n size kxe rankOut sk expand ds (expand seedXa) es
+
+/-- rows of `ggsw_compressed_encrypt_sk`: the temporary is rebuilt once per row and shared by the `rank+1` cells of the row -/
+def ggswRowSeq (b n dsize rank : Nat) (pt : Poly) : Col → List Nat → Option (List (Nat × Option (Col × Nat)))
+  | _, [] => some []
+  | tmp, row :: rows =>
+    match gadgetPtFrom tmp b n dsize row pt with
+    | none => none
+    | some p =>
+      match ggswRowSeq b n dsize rank pt p rows with
+      | none => none
+      | some ds => some ((List.range (rank + 1)).map (fun col => (row * (rank + 1) + col, some (p, col))) ++ ds)
+
+/-- **`ggsw_compressed_encrypt_sk`** with its temporary -/
+def ggswEncryptCompressedT (tmp0 : Col) (bits b n size kxe rank dnum dsize : Nat) (pt : Poly) (sk : List Poly)
+    (expand : List Nat → List Nat) (seedXa : List Nat) (es : List Poly) : Option (List (Nat × CellC)) :=
+  match ggswRowSeq b n dsize rank pt tmp0 (List.range dnum) with
+  | none => none
+  | some ds => compressedCells bits b n size kxe rank sk expand ds (expand seedXa) es
+
+/-! ### keys built on the two matrix routines -/
+
+/-- `glwe_secret_tensor_prepare`: `s_i·s_j` for `i ≤ j` at index `i·rank + j − i(i+1)/2` (row-major upper triangle), each
+normalised to one limb of radix 2^17 -/
+def tensorSecret (bits n : Nat) (sk : List Poly) : Option (List Poly) :=
+  ((List.range sk.length).flatMap (fun i => ((List.range sk.length).drop i).map (fun j => (i, j)))).mapM (fun ij =>
+    (bigNormalize bits 17 1 [Hal.negMul (sk.getD ij.2 []) (sk.getD ij.1 [])] 17 n).map (fun c => c.getD 0 []))
+
+/-- **`glwe_tensor_key_compressed_encrypt_sk`**: the compressed GGLWE of the tensor secret (`rank_in` = number of pairs) -/
+def tensorKeyEncryptCompressedT (tmp0 : Col) (bits b n size kxe rank dnum dsize : Nat) (sk : List Poly)
+    (expand : List Nat → List Nat) (seedXa : List Nat) (es : List Poly) : Option (List (Nat × CellC)) :=
+  match tensorSecret bits n sk with
+  | none => none
+  | some pts => gglweEncryptCompressedT tmp0 bits b n size kxe rank pts.length dnum dsize pts sk expand seedXa es
+
+/-- **`blind_rotation_key_compressed_encrypt_sk`** (CGGI, standard and block-binary — the distribution tag is copied, the
+encryption is the same): GGSW `i` encrypts the constant polynomial `sk_lwe[i]` under the seed `source_xa.new_seed()` draws
+for it from `Source::new(seed_xa)`; the error source runs on across the GGSWs.  `tmps` = content of the scratch
+temporary on entry of each `ggsw_compressed_encrypt_sk` call. -/
+def brkLoop (bits b n size kxe rank dnum : Nat) (sk : List Poly) (expand : List Nat → List Nat) (tmp0 : Col) :
+    List Int → List Nat → List Poly → Option (List (List (Nat × CellC)))
+  | [], _, _ => some []
+  | si :: rest, top, es =>
+    match Sampling.newSeed top with
+    | none => none
+    | some (seedI, top') =>
+      match ggswEncryptCompressedT tmp0 bits b n size kxe rank dnum 1 (si :: List.replicate (n - 1) 0) sk expand seedI es with
+      | none => none
+      | some cells =>
+        match brkLoop bits b n size kxe rank dnum sk expand tmp0 rest top' (es.drop cells.length) with
+        | none => none
+        | some out => some (cells :: out)
+
+def brkEncryptCompressed (bits b n size kxe rank dnum : Nat) (skLwe : List Int) (sk : List Poly)
+    (expand : List Nat → List Nat) (tmp0 : Col) (seedXa : List Nat) (es : List Poly) : Option (List (List (Nat × CellC))) :=
+  brkLoop bits b n size kxe rank dnum sk expand tmp0 skLwe (expand seedXa) es
+
+/-- **`decompress_lwe`**: every limb's `n+1` coefficients are regenerated from `Source::new(seed)`, then coefficient 0 of
+every limb is overwritten with the stored body -/
+def decompressLwe (b nl : Nat) (body : List Int) (seedStream : List Nat) : Option Col :=
+  (Sampling.vecFillUniform b (nl + 1) body.length seedStream).map
+    (fun r => List.zipWith (fun l x => x :: l.drop 1) r.1 body)
+
+/-- **`decompress_lwe` as it is** (layouts/compressed/lwe.rs:124, after repair e6c90e8): the receiver (radix `resB`, `resSize` limbs,
+LWE dimension `nl`) must have the compressed object's radix and number of limbs — `assert_eq!(res.base2k(), other.base2k());
+assert_eq!(res.size(), other.size())`, a panic otherwise; the LWE dimension is the receiver's (the compressed object does not record it). -/
+def decompressLweRust (resB resSize b nl : Nat) (body : List Int) (seedStream : List Nat) : Option Col :=
+  if resB ≠ b ∨ resSize ≠ body.length then none else decompressLwe b nl body seedStream
+
+/-- the assertion before the repair: `assert_eq!(res.lwe_layout(), other.lwe_layout())`, where `LWECompressed::n()` is the ring degree of the
+body buffer (always 1): every LWE dimension other than 1 was refused.  Kept as documentation of the repaired finding only. -/
+def decompressLweOldAssert (b nl : Nat) (body : List Int) (seedStream : List Nat) : Option Col :=
+  if nl ≠ 1 then none else decompressLwe b nl body seedStream
+
+/-- compressing a standard LWE ciphertext: keep coefficient 0 of every limb (and the mask seed) -/
+def lweBodies (ct : Col) : List Int := ct.map (fun l => l.getD 0 0)
+
 /-- the stored object: cell at storage index `i` (what `at(row, col)` reads) -/
 def storedCell (cells : List (Nat × CellC)) (i : Nat) : Option CellC :=
   (cells.find? (fun c => c.1 == i)).map (·.2)
